@@ -91,6 +91,31 @@ TABLE = {
             "at collection time, snapshot covers _iter_all_tags).",
             "Decides structure; the interleaving between the engine thread and the reporter thread is outside; tags "
             "defined in user UOD modules are outside."),
+    "C32": ("route x sink coverage: dominance of every unit/run data access by a verified role-check helper, call-graph reach for the LSP plugin",
+            "All 41 routes of the included routers are enumerated from the decorators; every call that reads or commands "
+            "unit/run data (directly, through callees, or through the pylsp hook functions for the LSP websocket) must be "
+            "dominated by a helper that is itself verified to raise unless has_access(obj, user_roles), called with the "
+            "route's UserRolesValue and the same id; list endpoints must filter each element; has_access must have the "
+            "documented shape. This is a for-all-endpoints statement that a test per endpoint cannot close.",
+            "Identity/token validation (jwt) and FastAPI's dependency injection are trusted; the engine-facing routes and "
+            "the pub/sub notification channel are out of scope. The two LSP endpoints violate the rule today (open known findings)."),
+    "C26": ("type-level analysis of the annotation closure of all protocol message classes + structural checks of the envelope",
+            "Every MessageBase subclass in the three protocol namespaces and every pydantic model reachable through field "
+            "annotations (195 fields) is checked for JSON-lossy types (non-string dict keys, bytes, Decimal, Any ...); "
+            "serialize/deserialize are checked for the _type/_ns envelope, the fixed namespace list, rejection of unknown "
+            "names and the single catch-all that raises the protocol error. A type-level fact holds for all field values.",
+            "Trusts pydantic's model_dump/validation for JSON-safe types; does not decide NaN/precision or value equality."),
+    "C33": ("sibling-agreement rule over the three user-id selections + exclusion dominance in publish_message",
+            "Each selection comprehension must contain the has_access conjunct with the subscriber's recorded roles, test "
+            "one distinct NotificationScope member (together covering the enum) with its scope-specific conjunct; the "
+            "result must be fetched for exactly these selections by an IN query; preferences come from the topic-filtered "
+            "query; the new contributor's own subscriptions are skipped before posting.",
+            "Decides selection structure only; database contents, duplicate subscription rows and push delivery are outside."),
+    "C35": ("no-drop path rule on the aggregation loop",
+            "Every path through the loop body of AggregatedErrorLog.aggregate_with must append the entry, merge it "
+            "(count +1 and take its time) or be the equal-time redelivery branch; merging is restricted to equal message "
+            "and severity; fresh entries start at 1 and become `latest`.",
+            "The earlier-time branch violates the rule today (open known finding). Does not decide what the engine logs."),
 }
 
 DESIGN_NA = {
